@@ -12,6 +12,12 @@ import sys
 
 ROOT = os.path.dirname(os.path.dirname(os.path.abspath(__file__)))
 HINTS = {
+    'm9': ('prefer a clause of the statement or a part of the quantified domain that none of them touches; think of empty, '
+           'single-element and duplicated inputs, of what is left behind after an exception part-way (and a retry on the same '
+           'object), of generators / iterators consumed twice, of clean-up in close() / __exit__ / __del__, of thresholds where '
+           'a faster algorithm takes over (sizes of some hundreds or thousands), of float formatting and parsing corner cases '
+           '(exponent notation, negative zero, values that round up to the next power of ten), and of two features of the '
+           'library used together'),
     'm8': ('prefer a clause of the statement or a part of the quantified domain that none of them touches; think of other '
            'legal forms of the same argument (tuples, lists, numpy scalars and integer types, pathlib paths, opened files, '
            'relative paths, generators), of using one object for a second job after a first one finished or failed, of '
